@@ -8,6 +8,7 @@ from .. import paths
 from ..core import FUNC, call_attr, calls_in, dotted, norm, text, walk_local
 
 EXPLANATION = [
+    'C04.bounded-buffers: the host data queue and the flow-controlled pipe keep waiting packets in unbounded containers: a long backlog is never shortened silently.',
     'C04.flush-handle: every call of a data queue\'s flush() in Host passes the connection handle of the link being removed (the key used on a *_links / connections table, or `.handle` of the link object taken from such a table), so the buffers of a removed link are really given back.',
     'C04.shared-state: no class of the anchored modules keeps per-instance state in an object shared by all instances (an empty mutable container or synchronisation object as class-level default that is read through self and not rebound in __init__, or as a dataclass field default); process-wide registries are listed by name.',
     'C04.queue-geometry: each host data queue takes max_in_flight (and max_packet_size) from the Read Buffer Size fields of its own buffer pool, so the credit limit is the count the controller advertised for that pool (same rule as C05.queue-geometry).',
@@ -569,7 +570,13 @@ def shared_state_rule(ctx):
     shared_state(ctx, 'C04.shared-state', ['bumble.host', 'bumble.utils'])
 
 
+def bounded_buffers_rule(ctx):
+    from .. import generic_rules as g
+    g.bounded_buffers(ctx, 'C04.bounded-buffers', ['bumble.host', 'bumble.utils'])
+
+
 RULES = [
+    ('C04.bounded-buffers', bounded_buffers_rule),
     ('C04.flush-handle', flush_handle),
     ('C04.shared-state', shared_state_rule),
     ('C04.queue-geometry', queue_geometry),
